@@ -934,7 +934,13 @@ impl Extensions {
             }
         }
 
-        if let Some(extension) = path
+        // use the same decoding as when the file is read, so the extension can't be hidden
+        let decoded_path =
+            percent_encoding::percent_decode_str(request.uri().path()).decode_utf8();
+        if let Some(extension) = decoded_path
+            .as_deref()
+            .ok()
+            .and_then(utils::parse::uri)
             .map(Path::new)
             .and_then(Path::extension)
             .and_then(std::ffi::OsStr::to_str)
